@@ -85,6 +85,20 @@ def _get_sizing(vars, sizing, method, optimal_size=None):
 
         return signed, n_word, n_int, n_frac
 
+def _raw_operands(x, y, n_bits):
+    """
+    Raw (integer) values of two real operands, in a common type where `n_bits` bits can be computed exactly:
+    64 bits signed integers if they are enough, python integers otherwise. It avoids silent wrap around of
+    (u)int64 values and numpy's promotion of mixed int64/uint64 operands to float64.
+    """
+    x_val, y_val = x.val, y.val
+    if x_val.dtype.kind in 'iuO' and y_val.dtype.kind in 'iuO':
+        if n_bits < _n_word_max:
+            x_val, y_val = x_val.astype(np.int64), y_val.astype(np.int64)
+        else:
+            x_val, y_val = x_val.astype(object), y_val.astype(object)
+    return x_val, y_val
+
 def _function_over_one_var(repr_func, raw_func, x, out=None, out_like=None, sizing='optimal', method='raw', optimal_size=None, **kwargs):
     if not isinstance(x, Fxp):
         x = Fxp(x)
@@ -316,7 +330,9 @@ def add(x, y, out=None, out_like=None, sizing='optimal', method='raw', **kwargs)
     """
     def _add_raw(x, y, n_frac):
         precision_cast = (lambda m: np.array(m, dtype=object)) if n_frac >= _n_word_max else (lambda m: m)
-        return x.val * precision_cast(2**(n_frac - x.n_frac)) + y.val * precision_cast(2**(n_frac - y.n_frac))
+        # bits of aligned operands (as signed) plus carry
+        x_val, y_val = _raw_operands(x, y, max(x.n_word - x.n_frac, y.n_word - y.n_frac) + max(n_frac, x.n_frac, y.n_frac) + 2)
+        return x_val * precision_cast(2**(n_frac - x.n_frac)) + y_val * precision_cast(2**(n_frac - y.n_frac))
 
     if not isinstance(x, Fxp):
         x = Fxp(x)
@@ -337,7 +353,9 @@ def sub(x, y, out=None, out_like=None, sizing='optimal', method='raw', **kwargs)
     """
     def _sub_raw(x, y, n_frac):
         precision_cast = (lambda m: np.array(m, dtype=object)) if n_frac >= _n_word_max else (lambda m: m)
-        return x.val * precision_cast(2**(n_frac - x.n_frac)) - y.val * precision_cast(2**(n_frac - y.n_frac))
+        # bits of aligned operands (as signed) plus borrow
+        x_val, y_val = _raw_operands(x, y, max(x.n_word - x.n_frac, y.n_word - y.n_frac) + max(n_frac, x.n_frac, y.n_frac) + 2)
+        return x_val * precision_cast(2**(n_frac - x.n_frac)) - y_val * precision_cast(2**(n_frac - y.n_frac))
 
     if not isinstance(x, Fxp):
         x = Fxp(x)
@@ -358,8 +376,9 @@ def mul(x, y, out=None, out_like=None, sizing='optimal', method='raw', **kwargs)
     """
     def _mul_raw(x, y, n_frac):
         precision_cast = (lambda m: np.array(m, dtype=object)) if n_frac >= _n_word_max else (lambda m: m)
-        raw_cast = (lambda m: np.array(m, dtype=object)) if (x.n_word + y.n_word) >= _n_word_max else (lambda m: m)
-        return raw_cast(x.val) * raw_cast(y.val) * precision_cast(2**(n_frac - x.n_frac - y.n_frac))
+        # bits of the product of both operands (as signed)
+        x_val, y_val = _raw_operands(x, y, x.n_word + y.n_word + 1)
+        return x_val * y_val * precision_cast(2**(n_frac - x.n_frac - y.n_frac))
 
     if not isinstance(x, Fxp):
         x = Fxp(x)
